@@ -551,6 +551,10 @@ func init() {
 	})
 	add("io.ReadAll", func(m *Machine, _ *Thread, _ *Frame, a []Value, _ ssa.Value) Value {
 		m.bumpEpoch(a[0])
+		if m.readerFails(a[0]) {
+			// the underlying reader (a socket) failed: partial data, non-nil error
+			return TupleV{ByteSlice{T: m.fresh("io.partial", m.bytesSort())}, m.opaqueError("io.read")}
+		}
 		data, set := m.readerSource(a[0])
 		set(m.strLit(""))
 		return TupleV{ByteSlice{T: data}, IfaceV{}}
@@ -824,4 +828,24 @@ func (m *Machine) bumpEpoch(v Value) {
 			st.(*readerState).epoch++
 		}
 	}
+}
+
+// readerFails reports whether the reader is a verifrt.StrReader whose FailRead flag is set
+// (the HTTP contract sets it nondeterministically for response bodies).
+func (m *Machine) readerFails(v Value) bool {
+	if iv, ok := v.(IfaceV); ok {
+		v = iv.V
+	}
+	p, ok := v.(Ptr)
+	if !ok || p.O == nil {
+		return false
+	}
+	sv, ok := p.O.V.(*StructV)
+	if !ok || len(sv.F) < 3 {
+		return false
+	}
+	if t, ok := sv.F[2].(*Term); ok && t.S.K == KBool {
+		return m.branch("reader.failread", t)
+	}
+	return false
 }
